@@ -62,7 +62,8 @@ TRANSLATORS = {
            "coq/lib/PySession.v (PoorSession.write/destroy/load/header -> "
            "gen/SessionGen.v)",
     "C15": _T + "harness/py2pages.py (nine page functions of results.py -> "
-           "gen/PagesGen.v)",
+           "gen/PagesGen.v); harness/py2v_escape.py + coq/lib/PyEscape.v "
+           "(HTML_ESCAPE_TABLE, html_escape -> gen/EscapeGen.v)",
     "C16": _T + "harness/py2v.py + coq/lib/Py.v (get_token, check_token -> "
            "gen/TokenGen.v)",
 }
@@ -101,7 +102,9 @@ TRANSLATORS.update({
            "coq/lib/PyCodec.v (parse_range, ContentRange, parse_/"
            "render_negotiation, the four date functions -> gen/CodecGen.v)",
     "C19": _T + "harness/py2v_registry.py + coq/lib/PyRegistry.v (the "
-           "registration methods of Application -> gen/RegistryGen.v)",
+           "registration methods of Application -> gen/RegistryGen.v); "
+           "harness/py2v_views.py (views and decorator forms -> "
+           "gen/ViewsGen.v)",
 })
 TRANSLATORS["C03"] = TRANSLATORS["C01"] + (
     "; harness/py2v_slots.py + coq/lib/PySlots.v (write-once slots of "
